@@ -253,6 +253,27 @@ fn c07_errors(rep: &mut Report, r: &mut Rng, shard: u64, nshards: u64) {
                             resp.message.payload = b"{}".to_vec();
                         }
                     }
+                    // ... or re-targeted it (separate response: own type and message id), or touched other parts
+                    let premut = r.below(4);
+                    if let Some(resp) = rq.response.as_mut() {
+                        match premut {
+                            1 => {
+                                resp.message.header.set_type(coap_lite::MessageType::Confirmable);
+                                resp.message.header.message_id = resp.message.header.message_id.wrapping_add(77);
+                            }
+                            2 => {
+                                resp.message.header.set_type(coap_lite::MessageType::NonConfirmable);
+                                resp.message.add_option(CoapOption::ETag, vec![1, 2]);
+                                resp.message.add_option(CoapOption::MaxAge, vec![60]);
+                            }
+                            3 => {
+                                resp.message.header.set_version(1);
+                                resp.message.header.set_type(coap_lite::MessageType::Reset);
+                                resp.message.set_token(vec![0xEE]);
+                            }
+                            _ => {}
+                        }
+                    }
                     let before = rq.clone();
                     let e = err.clone();
                     let ret = match guard(|| rq.apply_from_error(e)) {
@@ -262,7 +283,7 @@ fn c07_errors(rep: &mut Report, r: &mut Rng, shard: u64, nshards: u64) {
                         }
                         Ok(b) => b,
                     };
-                    let wit = format!("apply_from_error({}) on request type {} tkl {} pre-set-content-format {}", name, typ, tkl, pre_cf);
+                    let wit = format!("apply_from_error({}) on request type {} tkl {} pre-set-content-format {} reply re-targeted beforehand: variant {}", name, typ, tkl, pre_cf, premut);
                     let should = before.response.is_some() && err.code.is_some();
                     if ret != should {
                         rep.violation("apply-return-value", format!("returned {} (response present {}, code present {})", ret, before.response.is_some(), err.code.is_some()), wit);
